@@ -989,22 +989,14 @@ Qed.
 Lemma table_auth : table_ok 15 auth_map false NoSub = true.
 Proof. vm_compute. reflexivity. Qed.
 
-(* DISCONNECT: the library knows only user properties there (known finding
-   D13); frames carrying session expiry, reason string or server reference
-   are outside this theorem *)
-Lemma disc_props_ok ps : sprops_ok 14 ps -> Forall (fun ap => ap_id ap = 38) ps ->
-  Forall (prop_ok [] false NoSub) ps.
-Proof.
-  intros [Hok _] H38. apply Forall_forall. intros ap Hin. rewrite Forall_forall in Hok, H38.
-  destruct (Hok ap Hin) as [_ [Hty [Hpv _]]]. specialize (H38 ap Hin). unfold prop_ok.
-  rewrite H38 in Hty. destruct (ap_val ap); try discriminate Hty. split; [exact H38|exact Hpv].
-Qed.
+Lemma table_disconnect : table_ok 14 disconnect_map false NoSub = true.
+Proof. vm_compute. reflexivity. Qed.
 
 Definition disc_frame_ok (t form rc : N) (ps : list aprop) : Prop :=
   match form with
   | 0 => rc = 0 /\ ps = []
   | 1 => t = 14 /\ ps = []
-  | 2 => sprops_ok t ps /\ len (e_props_raw ps) < 268435456 /\ (t = 14 -> Forall (fun ap => ap_id ap = 38) ps)
+  | 2 => sprops_ok t ps /\ len (e_props_raw ps) < 268435456
   | _ => False
   end.
 
@@ -1089,8 +1081,7 @@ End DiscAuth.
 
 Lemma disc_form_cases t form rc ps : disc_frame_ok t form rc ps ->
   (form = 0 /\ rc = 0 /\ ps = []) \/ (form = 1 /\ t = 14 /\ ps = []) \/
-  (form = 2 /\ sprops_ok t ps /\ len (e_props_raw ps) < 268435456
-   /\ (t = 14 -> Forall (fun ap => ap_id ap = 38) ps)).
+  (form = 2 /\ sprops_ok t ps /\ len (e_props_raw ps) < 268435456).
 Proof.
   unfold disc_frame_ok. destruct form as [|p]; [intros H; left; tauto|].
   destruct p as [p|p|]; [destruct p; contradiction| |intros H; right; left; tauto].
@@ -1101,18 +1092,47 @@ Theorem accept_disconnect form rc ps : rc < 256 -> disc_frame_ok 14 form rc ps -
   accepts {| af_type := 14; af_flags := 0; af_body := BDisc form rc ps |}.
 Proof.
   intros Hrc Hform.
-  destruct (disc_decode KDisconnect [] eq_refl eq_refl eq_refl) with (form := form) (rc := rc) (ps := ps)
-    as [p' [Hd [Erc [Eu _]]]]; try assumption.
-  { intros id r w Hl. discriminate Hl. }
-  { destruct (disc_form_cases _ _ _ _ Hform) as [[-> [E1 E2]]|[[-> [_ E2]]|[-> [Hps [HR H38]]]]].
+  assert (Hnd : nodup_refs disconnect_map = true) by (vm_compute; reflexivity).
+  assert (Hform' : match form with
+    | 0 => rc = 0 /\ ps = []
+    | 1 => ps = []
+    | 2 => Forall (prop_ok disconnect_map false NoSub) ps /\ NoDup (keyed_ids ps) /\ len (e_props_raw ps) < 268435456
+    | _ => False
+    end).
+  { destruct (disc_form_cases _ _ _ _ Hform) as [[-> [E1 E2]]|[[-> [_ E2]]|[-> [Hps HR]]]].
     - split; assumption.
     - exact E2.
-    - split; [apply disc_props_ok; [exact Hps|apply H38; reflexivity]|].
+    - split; [apply (sprops_prop_ok 14); [exact table_disconnect|exact Hps]|].
       split; [apply (sprops_keyed 14); exact Hps|exact HR]. }
+  destruct (disc_decode KDisconnect disconnect_map eq_refl Hnd eq_refl) with (form := form) (rc := rc) (ps := ps)
+    as [p' [Hd [Erc [Eu Hother]]]]; try assumption.
+  { intros id r w Hl. apply lookup_in_map in Hl. unfold disconnect_map in Hl. cbn [In] in Hl.
+    repeat (destruct Hl as [Hl|Hl]; [injection Hl as _ <- _; repeat split; discriminate|]). contradiction. }
   apply (accepts_intro _ KDisconnect (setf (M F_fixed) (VN (ctor_fixed KDisconnect)) zero_pkt) p');
     [reflexivity|exact Hd|reflexivity|].
-  unfold snapshot, frame_obs. cbn [af_body af_type N.eqb Pos.eqb]. unfold oN, getN.
-  rewrite Erc, Eu, oprops_pairs. reflexivity.
+  unfold snapshot, frame_obs. cbn [af_body af_type N.eqb Pos.eqb]. unfold oN, oS, getN, getS.
+  rewrite Erc, Eu, oprops_pairs.
+  rewrite !Hother by (discriminate || exact I).
+  assert (Hstr : forall id f, lookup_prop disconnect_map id = Some (M f, Bin) -> id <> 11 -> id <> 38 ->
+            OS (valS (getf (M f) (apply_props disconnect_map false NoSub ps zero_pkt))) = pstr id ps).
+  { intros id f Hl H11 H38'.
+    destruct (disc_form_cases _ _ _ _ Hform) as [[-> [E1 ->]]|[[-> [_ ->]]|[-> [Hps HR]]]].
+    - reflexivity.
+    - reflexivity.
+    - destruct Hform' as [Hok [Hdup _]].
+      apply (obs_str disconnect_map false NoSub ps zero_pkt Hnd Hok Hdup id (M f) Hl H11 H38'). reflexivity. }
+  assert (Hnum : ON (valN (getf (M F_sessionExpiryInterval) (apply_props disconnect_map false NoSub ps zero_pkt)))
+                 = pnum 17 ps).
+  { destruct (disc_form_cases _ _ _ _ Hform) as [[-> [E1 ->]]|[[-> [_ ->]]|[-> [Hps HR]]]].
+    - reflexivity.
+    - reflexivity.
+    - destruct Hform' as [Hok [Hdup _]].
+      apply (obs_num disconnect_map false NoSub ps zero_pkt Hnd Hok Hdup 17 (M F_sessionExpiryInterval) U32);
+        [reflexivity|discriminate|discriminate|exact I|reflexivity]. }
+  rewrite Hnum.
+  rewrite (Hstr 31 F_reasonString eq_refl) by discriminate.
+  rewrite (Hstr 28 F_serverReference eq_refl) by discriminate.
+  reflexivity.
 Qed.
 
 Theorem accept_auth form rc ps : rc < 256 -> disc_frame_ok 15 form rc ps ->
@@ -1126,7 +1146,7 @@ Proof.
     | 2 => Forall (prop_ok auth_map false NoSub) ps /\ NoDup (keyed_ids ps) /\ len (e_props_raw ps) < 268435456
     | _ => False
     end).
-  { destruct (disc_form_cases _ _ _ _ Hform) as [[-> [E1 E2]]|[[-> [E _]]|[-> [Hps [HR _]]]]].
+  { destruct (disc_form_cases _ _ _ _ Hform) as [[-> [E1 E2]]|[[-> [E _]]|[-> [Hps HR]]]].
     - split; assumption.
     - discriminate E.
     - split; [apply (sprops_prop_ok 15); [exact table_auth|exact Hps]|].
@@ -1144,7 +1164,7 @@ Proof.
   assert (Hobs : forall id f, lookup_prop auth_map id = Some (M f, Bin) -> id <> 11 -> id <> 38 ->
             OS (valS (getf (M f) (apply_props auth_map false NoSub ps zero_pkt))) = pstr id ps).
   { intros id f Hl H11 H38'.
-    destruct (disc_form_cases _ _ _ _ Hform) as [[-> [E1 ->]]|[[-> [E _]]|[-> [Hps [HR _]]]]].
+    destruct (disc_form_cases _ _ _ _ Hform) as [[-> [E1 ->]]|[[-> [E _]]|[-> [Hps HR]]]].
     - reflexivity.
     - discriminate E.
     - destruct Hform' as [Hok [Hdup _]].
